@@ -138,6 +138,8 @@ type Engine struct {
 	rangeMemo      map[*Term]rng
 	RangeHits      int
 	initGlobals    map[*ssa.Package]map[*ssa.Global]bool
+	initDeny       map[string]bool
+	detSched       bool
 	snapshot_      *initSnapshot
 	snapshotUnsafe bool
 	pathCopier     *copier
@@ -524,7 +526,7 @@ func (e *Engine) load(p value) value {
 		if p == nil {
 			e.rtPanic("nil pointer dereference")
 		}
-		e.hbAccess(p, false, e.whereStr())
+		e.hbAccess(p, false, "")
 		if pv, bad := (*p).(poisonV); bad {
 			e.end("unsupported", "read of package-level variable "+pv.what+" whose initialiser was not run or could not be interpreted")
 		}
@@ -541,7 +543,7 @@ func (e *Engine) store(p value, v value) {
 		if p == nil {
 			e.rtPanic("nil pointer dereference")
 		}
-		e.hbAccess(p, true, e.whereStr())
+		e.hbAccess(p, true, "")
 		assignInPlace(p, v)
 	case *bytePtr:
 		e.byteStore(p.arr, p.off, p.idx, v.(*Term))
@@ -981,7 +983,7 @@ func (e *Engine) mapLookup(m *mapV, k value) (value, *Term, int) {
 	if m == nil {
 		return nil, FalseT, -1
 	}
-	e.hbAccess(m, false, e.whereStr())
+	e.hbAccess(m, false, "")
 	for i, mk := range m.keys {
 		if m.isDead(i) {
 			continue
@@ -1052,7 +1054,8 @@ func (e *Engine) callFnEnv(fn *ssa.Function, args []value, env []value) value {
 		e.end("unsupported", "no body: "+name)
 	}
 	if fn.Name() == "init" && fn.Pkg != nil && fn.Synthetic != "" {
-		if !e.initAllow[fn.Pkg.Pkg.Path()] || e.initDone[fn.Pkg] {
+		pp := fn.Pkg.Pkg.Path()
+		if !(e.initAllow[pp] || (strings.HasPrefix(pp, repoMod) && !e.initDeny[pp])) || e.initDone[fn.Pkg] {
 			return nil
 		}
 		e.initDone[fn.Pkg] = true
@@ -1256,7 +1259,7 @@ func (e *Engine) exec(fr *frame, b *ssa.BasicBlock, instr ssa.Instruction) bool 
 			}
 			k := e.get(fr, in.Key)
 			_, _, i := e.mapLookup(m, k)
-			e.hbAccess(m, true, e.whereStr())
+			e.hbAccess(m, true, "")
 			if i >= 0 {
 				m.vals[i] = copyVal(e.get(fr, in.Value))
 			} else {
@@ -1725,7 +1728,7 @@ func (e *Engine) builtin(fr *frame, b *ssa.Builtin, c *ssa.CallCommon, args []va
 				m.dead = append(m.dead, false)
 			}
 			m.dead[i] = true
-			e.hbAccess(m, true, e.whereStr())
+			e.hbAccess(m, true, "")
 		}
 		return nil
 	case "SliceData":
